@@ -18,9 +18,9 @@ SLIST_HEAD(backend_list, ec_backend);
 extern struct backend_list active_instances;
 extern int next_backend_desc;
 extern struct ec_backend_common backend_null, backend_flat_xor_hd, backend_isa_l_rs_vand,
-       backend_liberasurecode_rs_vand, backend_isa_l_rs_cauchy;
+       backend_liberasurecode_rs_vand, backend_isa_l_rs_cauchy, backend_shss;
 
-static int isal_ok;
+static int isal_ok, shss_ok;
 
 static int registry_len(void)
 {
@@ -256,11 +256,12 @@ static void run_invalid(void)
     static const cfg_t pool[] = {
         { EC_BACKEND_LIBERASURECODE_RS_VAND, 4, 2, 2, 0, CHKSUM_CRC32 }, { EC_BACKEND_FLAT_XOR_HD, 10, 5, 3, 0, CHKSUM_NONE },
         { EC_BACKEND_NULL, 4, 2, 2, 0, CHKSUM_CRC32 }, { EC_BACKEND_ISA_L_RS_VAND, 4, 2, 2, 0, CHKSUM_CRC32 }, { EC_BACKEND_ISA_L_RS_CAUCHY, 6, 3, 3, 0, CHKSUM_NONE },
-        { EC_BACKEND_LIBERASURECODE_RS_VAND, 1, 1, 1, 0, CHKSUM_NONE }, { EC_BACKEND_FLAT_XOR_HD, 6, 6, 4, 0, CHKSUM_CRC32 },
+        { EC_BACKEND_LIBERASURECODE_RS_VAND, 1, 1, 1, 0, CHKSUM_NONE }, { EC_BACKEND_FLAT_XOR_HD, 6, 6, 4, 0, CHKSUM_CRC32 }, { EC_BACKEND_SHSS, 4, 2, 2, 0, CHKSUM_CRC32 },
     };
     for (size_t pi = 0; pi < sizeof pool / sizeof pool[0]; pi++) {
         cfg_t c = pool[pi];
         if (!isal_ok && (c.be == EC_BACKEND_ISA_L_RS_VAND || c.be == EC_BACKEND_ISA_L_RS_CAUCHY)) continue;
+        if (!shss_ok && c.be == EC_BACKEND_SHSS) continue;
         live_t L; int ok = 0; int destroyed = -1;
         char ck[96]; cfg_key(&c, ck, sizeof ck);
         if (mon_case_all("%s|setup", ck)) {
@@ -310,7 +311,7 @@ static void run_invalid(void)
         if (mon_case_all("%s|teardown", ck)) { live_close(&L); mon_end(); }
     }
     /* create: NULL args, backend ids */
-    { qp_t q; static const int ids[] = { -1, 9, 10, 255, 1000, INT_MAX, 1, 2, 5, 8 };
+    { qp_t q; static const int ids[] = { -1, 9, 10, 255, 1000, INT_MAX, 1, 2, 8, INT_MIN };      /* out of range, or backends whose library is not installed (jerasure, libphazr) */
       for (size_t i = 0; i < sizeof ids / sizeof ids[0]; i++) {
         if (mon_case("create|backend-id=%d", ids[i])) {
             q_begin(&q);
@@ -591,8 +592,8 @@ static void run_history_ops(int hidx, int len)
             if (live[sl]) continue;
             static const cfg_t cf[] = { { EC_BACKEND_LIBERASURECODE_RS_VAND, 4, 2, 2, 0, CHKSUM_CRC32 }, { EC_BACKEND_LIBERASURECODE_RS_VAND, 10, 4, 4, 0, CHKSUM_NONE }, { EC_BACKEND_FLAT_XOR_HD, 10, 5, 3, 0, CHKSUM_CRC32 },
                                         { EC_BACKEND_FLAT_XOR_HD, 6, 6, 4, 0, CHKSUM_NONE }, { EC_BACKEND_NULL, 8, 4, 4, 0, CHKSUM_CRC32 }, { EC_BACKEND_ISA_L_RS_VAND, 5, 3, 3, 0, CHKSUM_CRC32 }, { EC_BACKEND_ISA_L_RS_CAUCHY, 4, 4, 4, 0, CHKSUM_CRC32 },
-                                        { EC_BACKEND_LIBERASURECODE_RS_VAND, 1, 1, 1, 0, CHKSUM_CRC32 } };
-            cfg_t c = cf[rng_below(&r, 8)];
+                                        { EC_BACKEND_LIBERASURECODE_RS_VAND, 1, 1, 1, 0, CHKSUM_CRC32 }, { EC_BACKEND_SHSS, 4, 2, 2, 0, CHKSUM_CRC32 }, { EC_BACKEND_SHSS, 3, 3, 3, 0, CHKSUM_NONE } };
+            cfg_t c = cf[rng_below(&r, shss_ok ? 10 : 8)];
             if (!isal_ok && (c.be == EC_BACKEND_ISA_L_RS_VAND || c.be == EC_BACKEND_ISA_L_RS_CAUCHY)) c = cf[0];
             uint64_t len_ = rng_below(&r, 3) == 0 ? rng_below(&r, 3) : 1 + rng_below(&r, 3000);
             if (live_open(&S[sl], &c, len_, MO.seed + (uint64_t)st) == 0) live[sl] = 1; else mon_viol("C16", "create-failed", "%s", what);
@@ -673,6 +674,9 @@ resealed_done: ;
                  * answers, nothing may stay allocated */
                 int o2 = -1; for (int q = 1; q < NSLOT; q++) if (live[(sl + q) % NSLOT]) { o2 = (sl + q) % NSLOT; break; }
                 if (o2 < 0) break;
+                /* a backend that owns a trailer behind the payload writes it for every fragment it rebuilds: fragments of a
+                 * backend without one are too short for that (garbage in, nothing the properties speak about) */
+                if (ref_backend_metadata_bytes(L->c.be) != ref_backend_metadata_bytes(S[o2].c.be)) break;
                 live_t *F = &S[o2]; int fn = F->s.n;
                 int keep = 1 + (int)rng_below(&r, (uint32_t)fn);
                 int fp[32]; for (int i = 0; i < fn; i++) fp[i] = i; rng_shuffle(&r, fp, fn);
@@ -1069,6 +1073,7 @@ static struct ec_backend_common *common_of(int be)
     switch (be) {
     case EC_BACKEND_NULL: return &backend_null; case EC_BACKEND_FLAT_XOR_HD: return &backend_flat_xor_hd; case EC_BACKEND_ISA_L_RS_VAND: return &backend_isa_l_rs_vand;
     case EC_BACKEND_LIBERASURECODE_RS_VAND: return &backend_liberasurecode_rs_vand; case EC_BACKEND_ISA_L_RS_CAUCHY: return &backend_isa_l_rs_cauchy;
+    case EC_BACKEND_SHSS: return &backend_shss;
     }
     return NULL;
 }
@@ -1166,10 +1171,11 @@ static void run_faults(void)
                                   /* more parity than data, k = 1, k = m, widest stripe: loops over k used where m is meant (and vice versa) */
                                   { EC_BACKEND_LIBERASURECODE_RS_VAND, 2, 4, 4, 0, CHKSUM_CRC32 }, { EC_BACKEND_LIBERASURECODE_RS_VAND, 1, 3, 3, 0, CHKSUM_NONE }, { EC_BACKEND_NULL, 3, 7, 7, 0, CHKSUM_NONE },
                                   { EC_BACKEND_ISA_L_RS_CAUCHY, 2, 5, 5, 0, CHKSUM_CRC32 }, { EC_BACKEND_LIBERASURECODE_RS_VAND, 3, 3, 3, 0, CHKSUM_CRC32 }, { EC_BACKEND_LIBERASURECODE_RS_VAND, 12, 20, 20, 0, CHKSUM_NONE },
-                                  { EC_BACKEND_FLAT_XOR_HD, 5, 5, 3, 0, CHKSUM_CRC32 } };
+                                  { EC_BACKEND_FLAT_XOR_HD, 5, 5, 3, 0, CHKSUM_CRC32 }, { EC_BACKEND_SHSS, 4, 2, 2, 0, CHKSUM_CRC32 }, { EC_BACKEND_SHSS, 2, 4, 4, 0, CHKSUM_NONE } };
     for (size_t pi = 0; pi < sizeof pool / sizeof pool[0]; pi++) {
         cfg_t c = pool[pi];
         if (!isal_ok && (c.be == EC_BACKEND_ISA_L_RS_VAND || c.be == EC_BACKEND_ISA_L_RS_CAUCHY)) continue;
+        if (!shss_ok && c.be == EC_BACKEND_SHSS) continue;
         char ck[96]; cfg_key(&c, ck, sizeof ck);
         int n = c.k + c.m;
         /* script: encodes, decodes with data loss, reconstructs of data+parity, fragments_needed */
@@ -1265,7 +1271,9 @@ int main(int argc, char **argv)
     mon_init(argc, argv);
     LEC_PROP = MO.prop;
     isal_ok = liberasurecode_backend_available(EC_BACKEND_ISA_L_RS_VAND);
+    shss_ok = liberasurecode_backend_available(EC_BACKEND_SHSS);
     mon_count0("isal_reference_plugin_available", isal_ok);
+    mon_count0("shss_standin_plugin_available", shss_ok);
     mon_count0("ledger_available", ledger_available());
     if (!strcmp(PROP, "C13")) run_invalid();
     else if (!strcmp(PROP, "C14") && !strcmp(MO.mode, "oomcreate")) run_registry_oomcreate();
